@@ -182,20 +182,25 @@ def check_detect_inspect(s, rng, tmpdir, idx, inspect):
     if rng.random() < 0.4 and len(files) >= 3:
         files[1] = (os.path.join(tmpdir, 'missing-mid.mos.xml'), 'missing')
     try:
-        judge_detect_inspect(s, 'inspect' if inspect else 'detect', files)
+        # files AND a bucket named: the listed files are what is reported (the bucket is never consulted)
+        extra = rng.choice([['-b', 'unused-bucket'], ['-b', 'unused-bucket', '-p', 'some/prefix/'],
+                            ['--bucket-name', 'unused-bucket']]) if rng.random() < 0.12 else []
+        judge_detect_inspect(s, 'inspect' if inspect else 'detect', files, extra)
     finally:
         close_pipes(files)
 
 
-def judge_detect_inspect(s, cmd, files):
+def judge_detect_inspect(s, cmd, files, extra=()):
     inspect = cmd == 'inspect'
-    argv = [cmd, '-f'] + [f for f, _ in files]
+    argv = [cmd, '-f'] + [f for f, _ in files] + list(extra)
+    if extra:
+        s.hist['cli:%s:files-and-bucket' % cmd] += 1
     rc, out, err = run_cli(argv)
     lines = out.splitlines()
     pos = 0
     pattern = ''.join({'valid': 'v', 'completed': 'c', 'nonxml': 'x', 'unknown': 'u', 'missing': 'm', 'dir': 'd', 'pipe': 'v'}[k]
                       for _, k in files)
-    wit = {'type': 'cli', 'judge': 'detect_inspect', 'cmd': cmd, 'argv': argv,
+    wit = {'type': 'cli', 'judge': 'detect_inspect', 'cmd': cmd, 'argv': argv, 'extra': list(extra),
            'files': [(f, k, (PIPE_DOCS[f][0].encode('utf-8').decode('latin-1') if k == 'pipe' else
                              open(f, 'rb').read().decode('latin-1') if os.path.isfile(f) else None)) for f, k in files]}
     s.hist['cli:pipe-paths'] += sum(1 for _, k in files if k == 'pipe')
@@ -343,6 +348,11 @@ def check_merge(s, rng, tmpdir, idx):
     argv = ['merge']
     if paths:
         argv += ['-f'] + paths
+        if rng.random() < 0.12:
+            # files AND a bucket named: the files are merged (the bucket is never consulted)
+            argv += rng.choice([['-b', 'unused-bucket'], ['-b', 'unused-bucket', '-p', 'some/prefix/']])
+            flavour += '+files-and-bucket'
+            s.hist['cli:merge:files-and-bucket'] += 1
     if inc:
         argv.append(rng.choice(['-i', '--incomplete']))
     if non_strict:
@@ -693,7 +703,7 @@ def replay(s, data):
                     p = make_pipe(content.encode('latin-1').decode('utf-8'))     # a fresh pipe: the number may differ
                 files.append((p, k))
             try:
-                judge_detect_inspect(s, w['cmd'], files)
+                judge_detect_inspect(s, w['cmd'], files, w.get('extra', ()))
             finally:
                 close_pipes(files)
         elif w.get('judge') == 'merge':
